@@ -1167,7 +1167,12 @@ def _select_last_carry(sequence: A, seq_lengths: jnp.ndarray) -> A:
   last_idx = seq_lengths - 1
 
   def _slice_array(x: jnp.ndarray):
-    return x[last_idx, jnp.arange(x.shape[1])]
+    # x has shape (time, *batch, *features) and last_idx has shape (*batch):
+    # pick, for every batch element, the carry at its own last valid step.
+    idx = jnp.reshape(
+      last_idx, (1,) + last_idx.shape + (1,) * (x.ndim - 1 - last_idx.ndim)
+    )
+    return jnp.take_along_axis(x, idx, axis=0)[0]
 
   return jax.tree_util.tree_map(_slice_array, sequence)
 
